@@ -381,6 +381,17 @@ def setattr(I, st, obj, name, v, raw=False):
             if isinstance(g, FuncVal) and "property" in g.decorators():
                 yield st, exc("AttributeError", "can't set attribute '%s'" % name)
                 return
+        if name == "__dict__":
+            # obj.__dict__ = d: the instance attributes become exactly the items of d, and d stays the live __dict__
+            if not (isinstance(v, Ref) and st.get(v).kind == "dict") or st.get(v).owner is not None:
+                raise Unsupported("assignment of a non-dict to __dict__")
+            d = st.get(v)
+            if not all(isinstance(kk, str) for kk in d.items):
+                raise Unsupported("__dict__ with non-string keys")
+            e.attrs = dict(d.items)
+            d.owner = obj
+            yield st, None
+            return
         e.attrs[name] = v
         yield st, None
         return
